@@ -595,6 +595,10 @@ def catalog():
                        {"k": "union", "name": "expr", "swty": "int", "swvar": "kind", "arms": [{"labels": ["0"], "body": {"ty": "int", "name": "lit", "arr": None}},
                                                                                             {"labels": ["1"], "body": {"ty": "pair", "name": "add", "arr": None}}]},
                        {"k": "struct", "name": "pair", "fields": [{"ty": "expr", "name": "l", "arr": None, "opt": True}, {"ty": "expr", "name": "r", "arr": ["var", "1"], "opt": False}]}])
+    spec("array-recursive", [{"k": "struct", "name": "forest", "fields": [{"ty": "forest", "name": "kids", "arr": ["var", ""], "opt": False}]},
+                             {"k": "typedef", "ty": "grove", "name": "glist", "arr": ["var", ""]},
+                             {"k": "struct", "name": "grove", "fields": [{"ty": "int", "name": "v", "arr": None, "opt": False}, {"ty": "glist", "name": "sub", "arr": None, "opt": False}]},
+                             {"k": "struct", "name": "flat", "fields": [{"ty": "inner", "name": "xs", "arr": ["var", ""], "opt": False}, {"ty": "inner", "name": "ys", "arr": ["var", ""], "opt": False}]}])
     spec("prims", [{"k": "struct", "name": "allprims", "fields": [
         {"ty": t, "name": "f%d" % i, "arr": None, "opt": False} for i, t in enumerate(
             ["unsigned int", "uint32_t", "u32", "unsigned", "int", "int32_t", "i32", "unsigned hyper", "uint64_t", "u64", "hyper", "int64_t", "i64", "float", "double", "bool", "string"])]}])
